@@ -37,6 +37,26 @@ pub fn world() -> Hierarchy<Arc<Relation>> {
     vec![(vec!["users".to_string()], Arc::new(users)), (vec!["orders".to_string()], Arc::new(orders)), (vec!["products".to_string()], Arc::new(products))].into_iter().collect()
 }
 
+/// catalog styles: 0 = tables registered under their name (name == path); 1, 2 = tables whose path differs from their name,
+/// registered under both (what `io::Database::relations()` does), privacy unit spelled by name (1) or by path (2)
+pub fn world_styled(style: u64) -> Hierarchy<Arc<Relation>> {
+    if style == 0 { return world(); }
+    let base = world();
+    let mut out: Vec<(Vec<String>, Arc<Relation>)> = vec![];
+    for (name, path) in [("users", "user_table"), ("orders", "order_table"), ("products", "product_table")] {
+        let r = base.get(&[name.to_string()]).unwrap();
+        let t: Relation = Relation::table().name(name).path([path]).schema(r.schema().clone()).size(*r.size().max().unwrap()).build();
+        let t = Arc::new(t);
+        out.push((vec![name.to_string()], t.clone()));
+        out.push((vec![path.to_string()], t));
+    }
+    out.into_iter().collect()
+}
+
+pub fn privacy_unit_styled(style: u64) -> PrivacyUnit {
+    if style == 2 { PrivacyUnit::from(vec![("user_table", vec![], "id"), ("order_table", vec![("user_id", "user_table", "id")], "id")]) } else { privacy_unit() }
+}
+
 pub fn privacy_unit() -> PrivacyUnit {
     PrivacyUnit::from(vec![("users", vec![], "id"), ("orders", vec![("user_id", "users", "id")], "id")])
 }
@@ -81,7 +101,7 @@ pub fn gen(rng: &mut Rng, k: usize, _tier: &str) -> J {
     let depth = 1 + (k % 3) as u32;
     let root = gen_q(rng, depth, &mut ctes);
     let sql = format!("WITH {} SELECT k, v FROM {root}", ctes.join(", "));
-    json!({"sql": sql, "synthetic": rng.chance(1, 2), "strategy": if rng.chance(1, 2) { "hard" } else { "soft" }})
+    json!({"sql": sql, "synthetic": rng.chance(1, 2), "strategy": if rng.chance(1, 2) { "hard" } else { "soft" }, "catalog": rng.below(3)})
 }
 
 pub fn lab(p: &Property) -> &'static str {
@@ -159,8 +179,11 @@ fn audit(rel: &Relation, noise_above: bool, reduce_below_noise: bool, path: &mut
 pub fn eval(case: &J) -> Outcome {
     let mut out = Outcome::new();
     let sql = case["sql"].as_str().unwrap();
-    let rels = world();
-    let synth = if case["synthetic"].as_bool().unwrap_or(false) { Some(synthetic()) } else { None };
+    let style = case["catalog"].as_u64().unwrap_or(0);
+    let rels = world_styled(style);
+    let privacy_unit = || privacy_unit_styled(style);
+    out.tag(&format!("catalog={style}"));
+    let synth = if case["synthetic"].as_bool().unwrap_or(false) { Some(if style == 0 { synthetic() } else { SyntheticData::new(Hierarchy::from([(vec!["user_table"], Identifier::from("users_sd")), (vec!["order_table"], Identifier::from("orders_sd")), (vec!["product_table"], Identifier::from("products_sd"))])) }) } else { None };
     let strategy = if case["strategy"] == "soft" { Strategy::Soft } else { Strategy::Hard };
     let dp = DpParameters::from_epsilon_delta(1.0, 1e-5);
     let relation = match guarded(|| { let q = parse(sql).map_err(|e| e.to_string())?; Relation::try_from(QueryWithRelations::new(&q, &rels)).map_err(|e| e.to_string()) }) {
